@@ -164,6 +164,65 @@ impl Rng {
     }
 }
 
+// Bounded cross-check of the TRUSTED wrapper contracts of the Verus unit (rules R1-R6): the std call each
+// wrapper's body consists of must agree with the executable counterpart of its spec function, for every
+// string of length <= 6 over {'/', '.', 'a', e-acute}.
+fn wrapper_contracts(rep: &mut Report, cases: &mut usize) {
+    let alpha = ['/', '.', 'a', '\u{e9}'];
+    let mut all: Vec<String> = vec![String::new()];
+    let mut frontier: Vec<String> = vec![String::new()];
+    for _ in 0..6 {
+        let mut next = Vec::new();
+        for s in &frontier {
+            for c in alpha {
+                let mut t = s.clone();
+                t.push(c);
+                next.push(t);
+            }
+        }
+        all.extend(next.iter().cloned());
+        frontier = next;
+    }
+    for s in &all {
+        *cases += 1;
+        // R1: E.split('/') == split spec (char-level reference)
+        let std_split: Vec<&str> = s.split('/').collect();
+        let rs = ref_split(s);
+        if std_split.len() != rs.len() || std_split.iter().zip(rs.iter()).any(|(a, b)| *a != b.as_str()) {
+            rep.fail("wrapper/R1_split_contract", &format!("split({:?}) std={:?} spec={:?}", s, std_split, rs));
+        }
+        // R2: V.join("/") == join spec; split o join == identity on the parts
+        let joined = std_split.join("/");
+        if &joined != s {
+            rep.fail("wrapper/R2_join_contract", &format!("join(split({:?})) = {:?}", s, joined));
+        }
+        // R4: starts_with char / str == prefix test
+        if s.starts_with('/') != (s.chars().next() == Some('/')) {
+            rep.fail("wrapper/R4_starts_with_char_contract", s);
+        }
+        for p in ["./", "../"] {
+            let pc: Vec<char> = p.chars().collect();
+            let sc: Vec<char> = s.chars().collect();
+            let want = sc.len() >= pc.len() && sc[..pc.len()] == pc[..];
+            if s.starts_with(p) != want {
+                rep.fail("wrapper/R4_starts_with_str_contract", &format!("{:?}.starts_with({:?})", s, p));
+            }
+        }
+        // R5: rfind + get(..idx) == text before the last '/'
+        let std_before: Option<&str> = s.rfind('/').and_then(|idx| s.get(..idx));
+        if std_before.map(|x| x.to_string()) != ref_before_last_slash(s) {
+            rep.fail("wrapper/R5_before_last_contract", &format!("{:?}: std={:?} spec={:?}", s, std_before, ref_before_last_slash(s)));
+        }
+        // R3 / R6: format! of &str pieces is concatenation, to_string is identity
+        let f2 = format!("/{}", s);
+        let f3 = format!("{}/{}", s, "x");
+        if f2.chars().collect::<Vec<_>>() != std::iter::once('/').chain(s.chars()).collect::<Vec<_>>()
+            || f3 != [s.as_str(), "/", "x"].concat() || s.to_string() != *s {
+            rep.fail("wrapper/R3_R6_concat_contract", s);
+        }
+    }
+}
+
 #[test]
 fn verif_oracle_modpath() {
     let seed: u64 = std::env::var("VERIF_SEED").ok().and_then(|s| s.parse().ok()).unwrap_or(0);
@@ -179,6 +238,7 @@ fn verif_oracle_modpath() {
     bases.push("/".to_string());
     bases.push(String::new());
     let mut cases = 0usize;
+    wrapper_contracts(&mut rep, &mut cases);
     for s in &specs {
         check_pair(&mut rep, s, None);
         cases += 1;
